@@ -238,6 +238,29 @@ Proof.
   - pose proof (card_le St states S0). lia.
 Qed.
 
+(** the frontier iteration terminates as well: every round with a non-empty
+    new frontier adds a state *)
+Lemma bfs_front_terminates R : forall fuel S0 F,
+  length states - card S0 + 2 <= fuel -> bfs_front St states R fuel S0 F <> None.
+Proof.
+  induction fuel as [|fuel IH]; intros S0 F Hf; [lia|]. cbn.
+  destruct (empty_set St states F) eqn:E; [discriminate|].
+  set (S' := fun y => S0 y || img R F y).
+  set (F' := fun y => S' y && negb (S0 y)).
+  destruct (empty_set St states F') eqn:E'.
+  - destruct fuel as [|fuel]; [lia|]. cbn. unfold F', S' in E'. rewrite E'. discriminate.
+  - apply IH.
+    assert (card S0 < card S').
+    { apply card_grows_in.
+      - intros y _ Hy. unfold S'. now rewrite Hy.
+      - destruct (same_set S0 S') eqn:Es; [|reflexivity].
+        rewrite same_set_spec in Es.
+        assert (Hemp : empty_set St states F' = true); [|congruence].
+        apply empty_set_spec. intros y Hy. unfold F'. rewrite <- (Es y Hy).
+        destruct (S0 y); reflexivity. }
+    pose proof (card_le St states S'). lia.
+Qed.
+
 (** saturation and the breadth-first iteration over the union agree on every state *)
 Corollary saturate_agrees_with_bfs : forall lv fuel fuel' init S S',
   saturate St states lv fuel init = Some S ->
